@@ -27,6 +27,8 @@ use iceoryx2_bb_lock_free::spsc::safely_overflowing_index_queue::{
     FixedSizeSafelyOverflowingIndexQueue, RelocatableSafelyOverflowingIndexQueue, SafelyOverflowingIndexQueue,
 };
 use iceoryx2_bb_memory::heap_allocator::HeapAllocator;
+use core::ptr::NonNull;
+use iceoryx2_bb_elementary_traits::allocator::{Allocate, AllocationError, Deallocate};
 use std::marker::PhantomData;
 
 pub struct Outcome {
@@ -512,7 +514,11 @@ impl<S: IoxString, H: Holder<S>> Real for StrReal<S, H> {
         let mut o = vec![cap as i64, len as i64];
         o.extend(by.iter().map(|c| *c as i64));
         let wn = x.as_bytes_with_nul();
-        check!(wn.len() == len + 1 && wn[len] == 0, "no NUL terminator behind the content (as_bytes_with_nul() = {wn:?})");
+        check!(wn.len() == len + 1, "as_bytes_with_nul().len() = {} with len() = {len}", wn.len());
+        if wn[len] != 0 {
+            let msg = format!("no NUL terminator behind the content: as_bytes_with_nul() = {wn:?}");
+            SOFT.with(|s| *s.borrow_mut() = Some(msg));
+        }
         Ok(o)
     }
     fn relocate(&mut self) -> bool {
@@ -734,8 +740,32 @@ impl<S: BitSetLike, H: Holder<S>> Real for BitSetReal<S, H> {
 // ------------------------------------------------------------------------------------------------
 // construction
 
-fn heap() -> &'static HeapAllocator {
-    HeapAllocator::global()
+/// The heap allocator of /repo with every allocation filled with 0xA5: what a recycled bucket of a
+/// pool allocator looks like. Makes reads of never-written bytes deterministic.
+#[derive(Debug)]
+pub struct PoisonHeap;
+static POISON_HEAP: PoisonHeap = PoisonHeap;
+
+impl Allocate<NonNull<u8>> for PoisonHeap {
+    fn allocate(&self, layout: core::alloc::Layout) -> Result<NonNull<u8>, AllocationError> {
+        let p = HeapAllocator::global().allocate(layout)?;
+        unsafe { core::ptr::write_bytes(p.as_ptr(), 0xA5, layout.size()) };
+        Ok(p)
+    }
+}
+impl Deallocate<NonNull<u8>> for PoisonHeap {
+    unsafe fn deallocate(&self, ptr: NonNull<u8>, layout: core::alloc::Layout) {
+        unsafe { HeapAllocator::global().deallocate(ptr, layout) }
+    }
+}
+
+fn heap() -> &'static PoisonHeap {
+    &POISON_HEAP
+}
+
+thread_local! {
+    /// a defect observed by `observe` that does not prevent the walk from continuing
+    pub static SOFT: std::cell::RefCell<Option<String>> = const { std::cell::RefCell::new(None) };
 }
 
 /// dispatch over the const-generic capacity
@@ -766,7 +796,7 @@ fn make_inner(kind: &str, flavour: &str, cap: usize, in_block: bool) -> Result<B
     }
     match (kind, flavour) {
         ("vec", "heap") => {
-            let v = PolymorphicVec::<Tok, HeapAllocator>::new(heap(), cap).map_err(|e| format!("{e:?}"))?;
+            let v = PolymorphicVec::<Tok, PoisonHeap>::new(heap(), cap).map_err(|e| format!("{e:?}"))?;
             boxed(VecReal { h: Own(v), _p: PhantomData })
         }
         ("vec", "inline") => {
@@ -810,7 +840,7 @@ fn make_inner(kind: &str, flavour: &str, cap: usize, in_block: bool) -> Result<B
         ("flatmap", "reloc") => boxed(FlatReal { h: InBlock::<RelocatableFlatMap<u8, Tok>>::new_relocatable(cap)?, cap, _p: PhantomData }),
 
         ("string", "heap") => {
-            let s = PolymorphicString::<HeapAllocator>::new(heap(), cap).map_err(|e| format!("{e:?}"))?;
+            let s = PolymorphicString::<PoisonHeap>::new(heap(), cap).map_err(|e| format!("{e:?}"))?;
             boxed(StrReal { h: Own(s), _p: PhantomData })
         }
         ("string", "inline") => {
